@@ -127,7 +127,24 @@ func (s *Swarm) Ask(ctx context.Context, resp []byte, dst Addr, data p2p.IOVec) 
 	if err != nil {
 		return 0, err
 	}
-	reply, err := c.Send(true, p2p.VecBytes(nil, data))
+	// the request waits for the peer's answer: do not wait past the caller's context
+	type result struct {
+		reply []byte
+		err   error
+	}
+	done := make(chan result, 1)
+	req := p2p.VecBytes(nil, data)
+	go func() {
+		reply, err := c.Send(true, req)
+		done <- result{reply, err}
+	}()
+	var reply []byte
+	select {
+	case <-ctx.Done():
+		return 0, ctx.Err()
+	case r := <-done:
+		reply, err = r.reply, r.err
+	}
 	if err != nil {
 		return 0, err
 	}
